@@ -2,6 +2,8 @@
 """Behaviour-preserving variants of the current tree, generated mechanically, against which every check must
 not print a VIOLATION (exit 2 = idiom no longer recognised is reported separately):
 
+  noop / flipcmp / extract / inline : see the docstrings below (a `pass` before compound statements; a < b -> b > a; call arguments
+              extracted into temporaries; single-use call-free temporaries inlined)
   unparse   : every module re-emitted by ast.unparse (formatting, comments and line numbers change)
   rename    : in every function that does not call locals()/vars()/eval and defines no class, all local
               variables (not parameters, not global/nonlocal) are renamed consistently (x -> x_rn)
@@ -99,16 +101,161 @@ def rename_module(src):
     return ast.unparse(tree) + "\n", changed
 
 
+# ---------------------------------------------------------------------------------------------- other mechanical twins
+class NoopInserter(ast.NodeTransformer):
+    """a `pass` after the docstring of every function and before every compound statement (for/while/if/with/try) of a block"""
+
+    def _block(self, body):
+        out = []
+        for i, st in enumerate(body):
+            if isinstance(st, (ast.For, ast.While, ast.If, ast.With, ast.Try)) and i > 0:
+                out.append(ast.Pass())
+            out.append(st)
+        return out
+
+    def generic_visit(self, node):
+        super().generic_visit(node)
+        for fld in ("body", "orelse", "finalbody"):
+            b = getattr(node, fld, None)
+            if isinstance(b, list) and b and isinstance(b[0], ast.stmt):
+                nb = self._block(b)
+                if isinstance(node, (ast.FunctionDef, ast.AsyncFunctionDef)) and fld == "body":
+                    k = 1 if (isinstance(nb[0], ast.Expr) and isinstance(nb[0].value, ast.Constant) and isinstance(nb[0].value.value, str)) else 0
+                    nb = nb[:k] + [ast.Pass()] + nb[k:]
+                setattr(node, fld, nb)
+        return node
+
+
+FLIP = {ast.Lt: ast.Gt, ast.Gt: ast.Lt, ast.LtE: ast.GtE, ast.GtE: ast.LtE, ast.Eq: ast.Eq, ast.NotEq: ast.NotEq}
+
+
+def _pure(n):
+    return all(isinstance(x, (ast.Name, ast.Attribute, ast.Constant, ast.Subscript, ast.BinOp, ast.UnaryOp, ast.Load, ast.operator, ast.unaryop,
+                              ast.Tuple, ast.Slice, ast.expr_context)) for x in ast.walk(n))
+
+
+class CmpFlipper(ast.NodeTransformer):
+    """a < b  ->  b > a   (both operands free of calls)"""
+
+    def visit_Compare(self, node):
+        self.generic_visit(node)
+        if len(node.ops) == 1 and type(node.ops[0]) in FLIP and _pure(node.left) and _pure(node.comparators[0]):
+            return ast.copy_location(ast.Compare(left=node.comparators[0], ops=[FLIP[type(node.ops[0])]()], comparators=[node.left]), node)
+        return node
+
+
+def extract_temps(src):
+    """x = f(a, g(b))  ->  _t1 = g(b); x = f(a, _t1)   for simple assignment / return statements whose call has a call argument
+    preceded only by call-free arguments (evaluation order is preserved)."""
+    tree = ast.parse(src)
+    n = [0]
+
+    def do_block(body):
+        out = []
+        for st in body:
+            for fld in ("body", "orelse", "finalbody"):
+                b = getattr(st, fld, None)
+                if isinstance(b, list) and b and isinstance(b[0], ast.stmt):
+                    setattr(st, fld, do_block(b))
+            for h in getattr(st, "handlers", []) or []:
+                h.body = do_block(h.body)
+            v = st.value if isinstance(st, (ast.Assign, ast.Return)) else None
+            if isinstance(v, ast.Call) and _pure(v.func) and not any(isinstance(a, ast.Starred) for a in v.args):
+                for i, a in enumerate(v.args):
+                    if isinstance(a, ast.Call) and all(_pure(b) for b in v.args[:i]) and not any(isinstance(x, (ast.Lambda, ast.NamedExpr, ast.Yield, ast.Await)) for x in ast.walk(a)):
+                        n[0] += 1
+                        t = f"_xt{n[0]}"
+                        out.append(ast.Assign(targets=[ast.Name(id=t, ctx=ast.Store())], value=a, lineno=st.lineno))
+                        v.args[i] = ast.Name(id=t, ctx=ast.Load())
+                        break
+                    if not _pure(a):
+                        break
+            out.append(st)
+        return out
+
+    def walk_fns(body, infn):
+        for st in body:
+            if isinstance(st, (ast.FunctionDef, ast.AsyncFunctionDef)):
+                st.body = do_block(st.body)
+                walk_fns(st.body, True)
+            elif isinstance(st, ast.ClassDef):
+                walk_fns(st.body, infn)
+    walk_fns(tree.body, False)
+    ast.fix_missing_locations(tree)
+    return ast.unparse(tree) + "\n", n[0]
+
+
+def inline_temps(src):
+    """t = <call-free expr>; <next stmt uses t exactly once, t used nowhere else>  ->  next stmt with the expression inlined."""
+    tree = ast.parse(src)
+    n = [0]
+
+    def uses(fn, name):
+        return [x for x in ast.walk(fn) if isinstance(x, ast.Name) and x.id == name]
+
+    def do_fn(fn):
+        def do_block(body):
+            out = []
+            i = 0
+            while i < len(body):
+                st = body[i]
+                for fld in ("body", "orelse", "finalbody"):
+                    b = getattr(st, fld, None)
+                    if isinstance(b, list) and b and isinstance(b[0], ast.stmt):
+                        setattr(st, fld, do_block(b))
+                if (isinstance(st, ast.Assign) and len(st.targets) == 1 and isinstance(st.targets[0], ast.Name) and _pure(st.value) and i + 1 < len(body)
+                        and not isinstance(body[i + 1], (ast.For, ast.While, ast.If, ast.With, ast.Try, ast.FunctionDef, ast.ClassDef, ast.AugAssign))):
+                    name = st.targets[0].id
+                    us = uses(fn, name)
+                    nxt = [x for x in ast.walk(body[i + 1]) if isinstance(x, ast.Name) and x.id == name and isinstance(x.ctx, ast.Load)]
+                    inlam = any(isinstance(p, (ast.Lambda, ast.ListComp, ast.SetComp, ast.DictComp, ast.GeneratorExp)) and any(x is y for y in ast.walk(p) for x in nxt) for p in ast.walk(body[i + 1]))
+                    if len(us) == 2 and len(nxt) == 1 and not inlam:
+                        class R(ast.NodeTransformer):
+                            def visit_Name(s_, node):
+                                return st.value if node is nxt[0] else node
+                        body[i + 1] = R().visit(body[i + 1])
+                        n[0] += 1
+                        i += 1
+                        continue
+                out.append(st)
+                i += 1
+            return out
+        fn.body = do_block(fn.body)
+
+    for node in ast.walk(tree):
+        if isinstance(node, (ast.FunctionDef, ast.AsyncFunctionDef)) and not any(isinstance(x, ast.Call) and isinstance(x.func, ast.Name) and x.func.id in ("locals", "vars") for x in ast.walk(node)):
+            do_fn(node)
+    ast.fix_missing_locations(tree)
+    return ast.unparse(tree) + "\n", n[0]
+
+
+def transform(kind, src):
+    if kind == "unparse":
+        return ast.unparse(ast.parse(src)) + "\n", 1
+    if kind == "rename":
+        return rename_module(src)
+    if kind == "noop":
+        t = NoopInserter().visit(ast.parse(src))
+        ast.fix_missing_locations(t)
+        return ast.unparse(t) + "\n", 1
+    if kind == "flipcmp":
+        t = CmpFlipper().visit(ast.parse(src))
+        ast.fix_missing_locations(t)
+        return ast.unparse(t) + "\n", 1
+    if kind == "extract":
+        return extract_temps(src)
+    if kind == "inline":
+        return inline_temps(src)
+    raise ValueError(kind)
+
+
 def run(args):
     kind, rel, props = args
     src = open(os.path.join(REPO, rel), encoding="utf-8").read()
     try:
-        if kind == "unparse":
-            new = ast.unparse(ast.parse(src)) + "\n"
-        else:
-            new, changed = rename_module(src)
-            if not changed:
-                return rel, kind, {}
+        new, changed = transform(kind, src)
+        if not changed:
+            return rel, kind, {}
         compile(new, rel, "exec")
     except Exception as e:
         return rel, kind, {"<generator>": f"skipped: {e}"}
@@ -129,7 +276,7 @@ def run(args):
 
 
 def main():
-    kinds = ["unparse", "rename"]
+    kinds = ["unparse", "rename", "noop", "flipcmp", "extract", "inline"]
     mods = []
     props = [p for p in PROPS if has_checker(p)]
     argv = sys.argv[1:]
